@@ -226,6 +226,13 @@ def prepare(root, seed):
         rebuild(f"rebuild-boot-{v}", {"env.suit": {"hex": env.hex()}},
                 {"op": "boot", "files": ["{MUT}/env.suit"], "soc": "nrf54h20", "base": 0x2000,
                  "config": f"{root}/kc_a.config"})
+        # the same envelope, the build configuration at the same path re-generated with another role for its class
+        kc = ('SB_CONFIG_SUIT_MPI_APP_LOCAL_%d_VENDOR_NAME="acme.example"\n'
+              'SB_CONFIG_SUIT_MPI_APP_LOCAL_%d_CLASS_NAME="acme_x"\n') % (({"A": 2, "B": 3}[v],) * 2)
+        rebuild(f"rebuild-boot-kconfig-{v}", {"envk.suit": {"hex": class_env("acme.example", "acme_x", 11).hex()},
+                                              "kc.config": {"text": kc}},
+                {"op": "boot", "files": ["{MUT}/envk.suit"], "soc": "nrf54h20", "base": 0x2000,
+                 "config": "{MUT}/kc.config"})
         rebuild(f"rebuild-parse-{v}", {"env.suit": {"hex": env.hex()}},
                 {"op": "parse", "src": "{MUT}/env.suit", "fmt": "yaml", "hier": False})
         rebuild(f"rebuild-sign-{v}", {"env.suit": {"hex": env.hex()}},
@@ -280,16 +287,21 @@ def _subst(x, mut):
     return x
 
 
-def run_op(spec, outdir):
+def run_op(spec, outdir, keep=False):
     """-> dict(outputs={name: sha}, exc=None|type name)"""
     if spec["op"] == "rebuild":
         mut = os.path.join(os.getcwd(), "mutable")
         os.makedirs(mut, exist_ok=True)
         for name, c in spec["write"].items():
             data = bytes.fromhex(c["hex"]) if "hex" in c else c["text"].replace("{MUT}", mut).encode()
-            with open(os.path.join(mut, name), "wb") as fh:      # in place: same path, same size, other content
+            path = os.path.join(mut, name)
+            if os.path.exists(path) and open(path, "rb").read() == data:
+                continue                                         # unchanged inputs are not touched (mtime stays old)
+            with open(path, "wb") as fh:                          # in place: same path, same size, other content
                 fh.write(data)
-        return run_op(_subst(spec["then"], mut), outdir)
+        # the outputs go to ONE directory per pair that is never cleaned: the result of the other variant is still
+        # there when this one runs (an "up to date" shortcut or a merge into an existing file must not keep it)
+        return run_op(_subst(spec["then"], mut), os.path.join(mut, "out_" + spec["id"][:-2]), keep=True)
     os.makedirs(outdir, exist_ok=True)
     op = spec["op"]
     outs = {}
@@ -392,7 +404,8 @@ def run_op(spec, outdir):
     finally:
         for k in [k for k in sys.modules if k.startswith(("SuitSignScript_module", "SuitEncryptScript_module"))]:
             del sys.modules[k]
-        shutil.rmtree(outdir, ignore_errors=True)
+        if not keep:
+            shutil.rmtree(outdir, ignore_errors=True)
 
 
 def main():
